@@ -2472,10 +2472,16 @@ fn run(v: &Value) -> Result<String, String> {
                 let server = WebSocketServer::new(Router::new().with_json("/slow", move |_| { st2.fetch_add(1, Ordering::SeqCst); std::thread::sleep(Duration::from_millis(1200)); Ok(json!("late")) }))
                     .with_peer_registry(registry.clone())
                     .on_peer_disconnect(move |_| { d2.fetch_add(1, Ordering::SeqCst); });
-                rt.block_on(async {
+                // its own two-worker runtime: one worker is pinned by the synchronous handler, the other is then the only one that can
+                // drive timers and the accept loop, which makes the drain deadline fire on time in every run
+                let rt2 = tokio::runtime::Builder::new_multi_thread().worker_threads(2).enable_all().build().unwrap();
+                let r = rt2.block_on(async {
                     let listener = tokio::net::TcpListener::bind(("127.0.0.1", 0)).await.map_err(|e| e.to_string())?;
                     let addr = listener.local_addr().unwrap();
                     let (stop_tx, stop_rx) = tokio::sync::oneshot::channel::<()>();
+                    // keep another worker polling the time driver while one worker is pinned by the synchronous handler, so that the
+                    // 100 ms drain deadline fires on time (otherwise tokio may deliver it only when the pinned worker is free again)
+                    let ticker = tokio::spawn(async { let mut iv = tokio::time::interval(Duration::from_millis(5)); loop { iv.tick().await; } });
                     let serving = tokio::spawn(async move { server.serve_listener_with_graceful_drain(listener, "/repe", async move { let _ = stop_rx.await; }, Duration::from_millis(100)).await });
                     let (mut ws, _) = repe::tokio_tungstenite::connect_async(format!("ws://{addr}/repe")).await.map_err(|e| e.to_string())?;
                     let m = repe::Message::builder().id(1).query_str("/slow").query_format(repe::QueryFormat::JsonPointer).body_json(&json!({})).unwrap().build();
@@ -2485,10 +2491,13 @@ fn run(v: &Value) -> Result<String, String> {
                     let _ = stop_tx.send(());
                     match tokio::time::timeout(Duration::from_secs(8), serving).await { Ok(_) => {}, Err(_) => return Err("drain straggler: the accept loop did not return within 8 s".into()) }
                     let n = disconnects.load(Ordering::SeqCst);
+                    ticker.abort();
                     if n != 1 || !registry.is_empty() { return Err(format!("drain straggler: the graceful-drain call returned after aborting a straggler, but its disconnect callbacks had run {n} time(s) and {} peer(s) were still registered at that moment", registry.len())); }
                     drop(ws);
                     Ok(())
-                })
+                });
+                rt2.shutdown_background();
+                r
             });
             if outcome.is_ok() { done += 1; }
             // embedder cancellation while the reader is parked handing a response to a full outbound queue (adopted upgraded stream)
